@@ -469,3 +469,153 @@ Proof.
   - cbn [refs_ok] in *. destruct Hr as (A & B0 & C). auto.
 Qed.
 End InstG.
+
+(* ====== instance 2: literal nodes are single well-formed characters (patterns in ASCII) ====== *)
+From FR Require Import Utf8Facts.
+From Coq Require Import ZArith ZifyBool ZifyNat ZifyN.
+Ltac Zify.zify_post_hook ::= Z.div_mod_to_equations.
+
+Lemma cp_len_ascii b : b < 128 -> cp_len b = 1.
+Proof. intros H. unfold cp_len. change Consts.CP_LEN_T1 with 128. destruct (Nat.ltb_spec b 128); [reflexivity|lia]. Qed.
+Lemma wf_char_ascii b : b < 128 -> wf_char [b].
+Proof.
+  intros H. cbn [wf_char]. split; [|split; [constructor|]].
+  - unfold is_cont. destruct (Nat.leb_spec 128 b); [lia|reflexivity].
+  - now rewrite cp_len_ascii.
+Qed.
+
+Lemma wf_char_encode cp : (cp <= 1114111)%N -> wf_char (encode_utf8 cp).
+Proof.
+  intros Hc. unfold encode_utf8.
+  destruct (N.ltb_spec cp 128); [apply wf_char_ascii; lia|].
+  destruct (N.ltb_spec cp 2048).
+  { cbn [wf_char]. split; [|split; [repeat constructor|]].
+    - unfold is_cont. apply andb_false_iff. right. apply Nat.ltb_ge. lia.
+    - unfold is_cont. apply andb_true_iff. split; [apply Nat.leb_le|apply Nat.ltb_lt]; lia.
+    - unfold cp_len. change Consts.CP_LEN_T1 with 128. change Consts.CP_LEN_T2 with 224.
+      destruct (Nat.ltb_spec (N.to_nat (192 + cp / 64)) 128); [lia|].
+      destruct (Nat.ltb_spec (N.to_nat (192 + cp / 64)) 224); [reflexivity|lia]. }
+  destruct (N.ltb_spec cp 65536).
+  { cbn [wf_char]. split; [|split; [repeat constructor|]].
+    - unfold is_cont. apply andb_false_iff. right. apply Nat.ltb_ge. lia.
+    - unfold is_cont. apply andb_true_iff. split; [apply Nat.leb_le|apply Nat.ltb_lt]; lia.
+    - unfold is_cont. apply andb_true_iff. split; [apply Nat.leb_le|apply Nat.ltb_lt]; lia.
+    - unfold cp_len. change Consts.CP_LEN_T1 with 128. change Consts.CP_LEN_T2 with 224. change Consts.CP_LEN_T3 with 240.
+      destruct (Nat.ltb_spec (N.to_nat (224 + cp / 4096)) 128); [lia|].
+      destruct (Nat.ltb_spec (N.to_nat (224 + cp / 4096)) 224); [lia|].
+      destruct (Nat.ltb_spec (N.to_nat (224 + cp / 4096)) 240); [reflexivity|lia]. }
+  cbn [wf_char]. split; [|split; [repeat constructor|]].
+  - unfold is_cont. apply andb_false_iff. right. apply Nat.ltb_ge. lia.
+  - unfold is_cont. apply andb_true_iff. split; [apply Nat.leb_le|apply Nat.ltb_lt]; lia.
+  - unfold is_cont. apply andb_true_iff. split; [apply Nat.leb_le|apply Nat.ltb_lt]; lia.
+  - unfold is_cont. apply andb_true_iff. split; [apply Nat.leb_le|apply Nat.ltb_lt]; lia.
+  - unfold cp_len. change Consts.CP_LEN_T1 with 128. change Consts.CP_LEN_T2 with 224. change Consts.CP_LEN_T3 with 240.
+    destruct (Nat.ltb_spec (N.to_nat (240 + cp / 262144)) 128); [lia|].
+    destruct (Nat.ltb_spec (N.to_nat (240 + cp / 262144)) 224); [lia|].
+    destruct (Nat.ltb_spec (N.to_nat (240 + cp / 262144)) 240); [lia|reflexivity].
+Qed.
+
+Section InstW.
+Variable re : list nat.
+Hypothesis Hascii : Forall (fun b => b < 128) re.
+
+Ltac inv H := inversion H; subst; clear H.
+
+Lemma byte_ascii ix b : byte re ix = Some b -> b < 128.
+Proof. unfold byte. intros H. apply nth_error_In in H. rewrite Forall_forall in Hascii. auto. Qed.
+Lemma sub_one ix b : byte re ix = Some b -> sub re ix (ix + 1) = [b].
+Proof.
+  unfold byte, sub. replace (ix + 1 - ix) with 1 by lia. revert ix. induction re as [|x r IH]; intros [|ix] H; cbn in *; try discriminate.
+  - inv H. destruct r; reflexivity.
+  - apply IH; auto. now inversion Hascii.
+Qed.
+
+Lemma parse_hex_W fl ix d r : parse_hex re fl ix d = POk r -> wfe (snd r).
+Proof.
+  intros H. unfold parse_hex in H. destruct (length re <=? ix); [discriminate|].
+  assert (Hfin : forall (e : nat) ds (r0 : nat * expr),
+    (let cp := hex_value ds 0%N in
+     if (N.leb 55296 cp && N.leb cp 57343) || N.ltb 1114111 cp
+     then @PErr (nat * expr) ix PInvalidCodepointValue
+     else POk (e, Literal (encode_utf8 cp) (f_casei fl))) = POk r0 -> wfe (snd r0)).
+  { intros e ds r0 Hr. cbv zeta in Hr.
+    destruct ((N.leb 55296 (hex_value ds 0) && N.leb (hex_value ds 0) 57343) || N.ltb 1114111 (hex_value ds 0)) eqn:Eo; [discriminate|]. inv Hr. cbn [snd wfe].
+    apply wf_char_encode. apply orb_false_iff in Eo as [_ Eo]. apply N.ltb_ge in Eo. exact Eo. }
+  destruct ((ix + d <=? length re) && forallb is_hex_digit (sub re ix (ix + d))); [eapply Hfin; eauto|].
+  destruct (byte_is re ix 123); [|discriminate]. destruct (hex_braced _ _ _ _ _) as [eh| | | |]; try discriminate.
+  cbn [pbind] in H. eapply Hfin; eauto.
+Qed.
+
+Lemma table_W b p : find (fun p => fst p =? b) Consts.ESCAPE_TABLE = Some p -> wf_char [snd p].
+Proof.
+  intros H. apply find_some in H as [H _]. cbn in H.
+  repeat (destruct H as [<-|H]; [apply wf_char_ascii; cbn; lia|]). destruct H.
+Qed.
+
+Lemma parse_escape_W st ix ic r : parse_escape re st ix ic = POk r -> wfe (snd (fst r)).
+Proof.
+  intros H. unfold parse_escape in H. destruct (byte re (ix + 1)) as [b|] eqn:Eb; [|discriminate].
+  cbv zeta in H.
+  repeat match type of H with
+  | (if ?c then _ else _) = POk _ => destruct c
+  | (match find ?f ?t with _ => _ end) = POk _ => destruct (find f t) eqn:Ef
+  | (match ?c with _ => _ end) = POk _ => destruct c eqn:?
+  | pbind ?m _ = POk _ => destruct m eqn:?; cbn [pbind] in H
+  end; try discriminate;
+  try (inv H; cbn [fst snd wfe class_delegate make_literal]; first [exact I|reflexivity]; fail);
+  try (unfold parse_named_backref in H; repeat match type of H with
+        | (if ?c then _ else _) = POk _ => destruct c
+        | (match ?c with _ => _ end) = POk _ => destruct c
+        end; try discriminate; inv H; exact I);
+  try (unfold parse_numbered_backref in H; repeat match type of H with
+        | (if ?c then _ else _) = POk _ => destruct c
+        | (match ?c with _ => _ end) = POk _ => destruct c
+        end; try discriminate; inv H; exact I);
+  try (inv H; cbn [fst snd]; eapply parse_hex_W; eassumption).
+  - inv H. cbn [fst snd wfe make_literal]. eapply table_W; eauto.
+  - inv H. cbn [fst snd wfe make_literal]. pose proof (byte_ascii _ _ Eb) as Hb. rewrite (cp_len_ascii b Hb).
+    replace (ix + 1 + 1) with ((ix + 1) + 1) by lia. rewrite (sub_one _ _ Eb). now apply wf_char_ascii.
+Qed.
+
+Lemma wfe_of_list l : Forall wfe l -> wfe_list l.
+Proof. induction 1; cbn; auto. Qed.
+Lemma wfe_to_list l : wfe_list l -> Forall wfe l.
+Proof. induction l; cbn; intros H; constructor; tauto. Qed.
+
+Theorem parse_wfe_ascii e st : parse re = POk (e, st) -> wfe e.
+Proof.
+  intros Hp.
+  refine (parse_Q re (fun _ x => wfe x) _ _ _ _ _ _ _ _ _ _ _ _ _ _ _ _ _ _ e st Hp).
+  - auto.
+  - intros; exact I.
+  - intros; exact I.
+  - intros; exact I.
+  - intros s ix b ci Hb _. cbn [wfe]. pose proof (byte_ascii _ _ Hb) as Hlt. rewrite (cp_len_ascii b Hlt), (sub_one _ _ Hb).
+    now apply wf_char_ascii.
+  - intros s l H. rewrite wfe_concat. now apply wfe_of_list.
+  - intros s l H. rewrite wfe_alt. now apply wfe_of_list.
+  - intros s l H. rewrite wfe_alt in H. now apply wfe_to_list.
+  - intros; assumption.
+  - intros; assumption.
+  - intros; assumption.
+  - intros; assumption.
+  - intros; exact I.
+  - intros s c y n H1 H2 H3. cbn [wfe]. auto.
+  - intros st0 ix o c ar mk r Hmk H. split; [apply (named_backref_G re st0 ix o c ar mk r Hmk H)|].
+    unfold parse_named_backref in H. repeat match type of H with
+        | (if ?c then _ else _) = POk _ => destruct c
+        | (match ?c with _ => _ end) = POk _ => destruct c
+        end; try discriminate. inv H. cbn [fst snd]. destruct Hmk as [E|E]; rewrite E; exact I.
+  - intros st0 ix mk r Hmk H. split; [apply (numbered_backref_G re st0 ix mk r Hmk H)|].
+    unfold parse_numbered_backref in H. repeat match type of H with
+        | (if ?c then _ else _) = POk _ => destruct c
+        | (match ?c with _ => _ end) = POk _ => destruct c
+        end; try discriminate. inv H. cbn [fst snd]. destruct Hmk as [E|E]; rewrite E; exact I.
+  - intros st0 ix ic r H. split; [apply (parse_escape_G re st0 ix ic r H)|now apply (parse_escape_W st0 ix ic r)].
+  - intros st0 ix r H. split; [apply (parse_class_G re st0 ix r H)|].
+    unfold parse_class in H. destruct (byte_is re (ix + 1) 94); cbv zeta beta iota in H.
+    all: match type of H with context[if ?c then _ else _] => destruct c end; cbv beta iota in H.
+    all: match type of H with pbind ?m _ = _ => destruct m as [[[e0 cls] st']| | | |] eqn:E end; try discriminate; cbn [pbind] in H.
+    all: inv H; reflexivity.
+Qed.
+End InstW.
